@@ -30,13 +30,15 @@ NAMES = ["camera", "lights", "tex", "smp", "data", "out_buf", "params", "Δ", "x
          "shadow", "env", "weights", "indices", "u_time", "cfg", "bones", "dst", "src", "a", "b", "c", "d", "e",
          # names a case conversion would change or merge: the field must be named exactly like the variable
          "baseColor", "lightDir", "light_dir", "LightDir", "tex2D", "Tex", "TEX", "uTime", "_private", "x1", "X1",
-         "normalMap", "HDR", "rgbaOut", "gr\u00f6\u00dfe"]
+         "normalMap", "HDR", "rgbaOut", "gr\u00f6\u00dfe",
+         # names as naga_oil writes them for imported items: the field is named like the variable, decoration included
+         "camX_naga_oil_mod_XMNXW23LPNYX", "camX_naga_oil_mod_XOBRHEX", "cam", "lightsX_naga_oil_mod_XMNXW23LPNYX"]
 
 
 def render(decls, rng):
     lines = ["struct U { a: vec4<f32>, b: f32 }"]
     for (g, b, name, kind) in decls:
-        lines.append("@group(%d) @binding(%d) %s" % (g, b, KINDS[kind][0].format(n=name)))
+        lines.append("@group(%d) @binding(%s) %s" % (g, ("%du" % b) if b >= 2 ** 31 else str(b), KINDS[kind][0].format(n=name)))
     lines.append("@compute @workgroup_size(1) fn main() {}")
     return "\n".join(lines) + "\n"
 
@@ -75,6 +77,9 @@ def cases(rng, tier):
         for g in range(ng):
             nb = rng.choice([1, 1, 2, 3, 5, 12])
             idx = rng.sample(range(0, rng.choice([12, 40, 1000])), nb)
+            if rng.random() < 0.15:
+                # the ends of the index range and powers of two: any u32 is a binding index
+                idx = list(dict.fromkeys(idx[: max(0, nb - 2)] + rng.sample([4294967295, 4294967294, 2147483648, 2147483647, 65536, 65535, 64, 63, 256], 2)))
             for b in idx:
                 decls.append((g, b, pool.pop(), rng.randrange(len(KINDS))))
         rng.shuffle(decls)
